@@ -25,6 +25,14 @@ def run_witnesses(R, prop):
     env = dict(os.environ, CARGO_NET_OFFLINE='true',
                CARGO_TARGET_DIR=os.environ.get('KV_TARGET', os.path.join(CACHE, 'target')) + '-witness')
     env.pop('RUSTC_WORKSPACE_WRAPPER', None)
+    if repo != '/repo' and os.path.isdir(env['CARGO_TARGET_DIR']):
+        # every scratch copy has its own path, so cargo keeps one build of kira per copy: bound what a long selftest leaves behind
+        try:
+            kb = int(subprocess.run(['du', '-sk', env['CARGO_TARGET_DIR']], stdout=subprocess.PIPE, text=True).stdout.split()[0])
+        except (ValueError, IndexError):
+            kb = 0
+        if kb > 3 * 1024 * 1024:
+            shutil.rmtree(env['CARGO_TARGET_DIR'], ignore_errors=True)
     r = subprocess.run(['cargo', '+nightly', 'test', '--doc', '--offline'], cwd=work, env=env,
                        stdout=subprocess.PIPE, stderr=subprocess.STDOUT, text=True)
     res = {}
